@@ -974,6 +974,7 @@ func init() {
 		Rule: "requests = method x hierarchy level x handler (webdav.Handler on LocalFileSystem, caldav.Handler, carddav.Handler on recording backends, webdav.ServePrincipal) " +
 			"x header sets (Depth/Overwrite/Destination/Content-Type: valid, boundary, invalid) x bodies (valid seeds; truncation at every byte offset; one definite syntax error; wrong root; " +
 			"mutually exclusive elements; invalid date/enumeration/limit; iCalendar/vCard without BEGIN/END or with a line lacking its colon; random structural mutations, deep nesting, bodies up to 64 KiB, random bytes). " +
+			"plus a pairwise family (every malformed operator x every unusual-but-valid feature of the same REPORT document: selection forms, limits 0/1/huge/absent, expand, empty lists, Depth, Content-Type spelling) and a sequence family (request A fails on a transport path: body breaks off after a complete valid document, body of 1 MiB+1..5 MiB beginning with one, cancelled context; request B, malformed by construction, follows in the same process, 3 times; B alone is judged first). " +
 			"Each request is served by ServeHTTP under recover(); obligation (2) (4xx, no mutating backend call, served tree unchanged) applies only when a component is malformed BY CONSTRUCTION (label set by the operator, cross-checked by the harness XML reader, never by encoding/xml unmarshalling). " +
 			"distinct_nontrivial counts distinct (handler, method, level, body family, operator, header classes, malformed classes, status) tuples.",
 		Assumptions: []string{
